@@ -267,7 +267,9 @@ class Run:
             if ob.kind == "witness":
                 asserts.append(g)
             else:
-                asserts.append(z3.Or([z3.Not(g)] + unwind + ([cnd for _, _, cnd in ubs] if ob.also_ub else [])))
+                # side conditions tagged "ENC:" state where a fast-path encoding stops being exact: they belong to every
+                # query that relies on that encoding, whether or not the obligation also covers UB
+                asserts.append(z3.Or([z3.Not(g)] + unwind + [cnd for k, _, cnd in ubs if ob.also_ub or k.startswith("ENC:")]))
         asserts.extend(ob.extra_asserts)
         if extra is not None:
             asserts.append(extra)
